@@ -13,6 +13,7 @@ package main
 import (
 	"fmt"
 	"go/types"
+	"regexp"
 	"strings"
 )
 
@@ -274,8 +275,13 @@ func typeName(t types.Type) string {
 		}
 		return p.Name()
 	})
+	s = byteRe.ReplaceAllString(s, "uint8")
+	s = runeRe.ReplaceAllString(s, "int32")
 	return mangle(s)
 }
+
+var byteRe = regexp.MustCompile(`\bbyte\b`)
+var runeRe = regexp.MustCompile(`\brune\b`)
 
 func and(xs ...string) string {
 	var ys []string
